@@ -10,6 +10,7 @@ Record c11case := {
   c11_source : list c11row;            (* the rows it was rendered from, feature = raw bytes as written *)
   c11_parsed : result (list c11row);   (* what Lexicon::parse_csv returned *)
   c11_stored : option (result (list (list N)));  (* None: not compiled for this case; features stored in a dictionary compiled from the same rows, by word id *)
+  c11_user : option (result (list (list N)));    (* the same rows loaded as a user lexicon: features by user word id *)
   c11_homs : list (list N * list N)    (* compiled cases: every distinct surface tokenized as a sentence, with the word ids of the system-lexicon nodes spanning it, in lattice order *)
 }.
 
@@ -61,7 +62,17 @@ Definition c11_homs_ok (c : c11case) : bool :=
   let kept := filter (fun r => match r_surface r with [] => false | _ => true end) (c11_source c) in
   forallb (fun h => list_eqb N.eqb (snd h) (ids_with (fst h) kept 0)) (c11_homs c).
 
+(** loaded as a user lexicon the same rows give the same features (an empty user lexicon is rejected) *)
+Definition c11_user_ok (c : c11case) : bool :=
+  let kept := filter (fun r => match r_surface r with [] => false | _ => true end) (c11_source c) in
+  match c11_user c with
+  | None => true
+  | Some (Ok fs) => list_eqb (list_eqb N.eqb) fs (map r_feature kept)
+  | Some Err => match kept with [] => true | _ => existsb (fun r => existsb (N.eqb 0) (r_surface r)) kept end
+  | Some Panic => false
+  end.
+
 Definition c11_nontrivial (c : c11case) : bool :=
   c11_wellformed c && match c11_parsed c with Ok (_ :: _ :: _) => true | _ => false end.
 
-Definition c11_report := report c11_corr (fun c => c11_oracle c && c11_stored_ok c && c11_homs_ok c) (fun _ => false) c11_nontrivial.
+Definition c11_report := report c11_corr (fun c => c11_oracle c && c11_stored_ok c && c11_user_ok c && c11_homs_ok c) (fun _ => false) c11_nontrivial.
